@@ -42,6 +42,20 @@ Register d1("utf.detect", [](const Tokens& t) -> std::string {
 	return std::string(typeName(ty)) + " " + std::to_string(off);
 });
 
+// utf.detects <pre> <skipBom 0|1> <hex>: DetectEncoding(std::istream&) on a stream that is already positioned `pre` bytes past its
+// beginning (a preamble the caller has consumed); answer: <type> <position after the call, relative to the start of the document>
+Register d1s("utf.detects", [](const Tokens& t) -> std::string {
+	if (t.size() != 4) throw BadOp("arity");
+	const size_t pre = std::stoul(t[1]);
+	const std::string bytes = parseBytes(t[3]);
+	std::istringstream is(std::string(pre, '#') + bytes);
+	std::string skipped(pre, '\0');
+	if (pre) is.read(skipped.data(), static_cast<std::streamsize>(pre));
+	const auto ty = U::DetectEncoding(is, t[2] == "1");
+	const auto pos = static_cast<long long>(is.tellg());
+	return std::string(typeName(ty)) + " " + (pos < 0 ? std::string("fail") : std::to_string(pos - static_cast<long long>(pre)));
+});
+
 template <class TChar, size_t N>
 std::string readAll(const Tokens& t) {
 	using TStr = std::basic_string<TChar>;
